@@ -93,12 +93,12 @@ fn cases<H: std::hash::Hasher + Default>(ctx: &mut Ctx, structured: bool) {
         let mut p = ProbOrdMinHash2::<H>::new(m, l);
         p.verif_set_seed(SEED);
         ctx.op(&format!("ord new a {} {} {}", m, l, hx(SEED)));
-        let hashes: Vec<String> = seq.iter().map(|x| hx(hash_with::<H, u64>(x))).collect();
+        let hashes: Vec<String> = seq.iter().map(|x| hash_tok::<H>(x)).collect();
         // earlier calls on the same instance must not matter
         if c % 2 == 1 {
             let other = if structured { gen_structured(&mut rng, l + 7) } else { gen_seq(&mut rng, l + 7, 50) };
             let _ = catch(std::panic::AssertUnwindSafe(|| p.hash_set(&other)));
-            let oh: Vec<String> = other.iter().map(|x| hx(hash_with::<H, u64>(x))).collect();
+            let oh: Vec<String> = other.iter().map(|x| hash_tok::<H>(x)).collect();
             ctx.line(&format!("ord set a {}", oh.join(" ")), &{
                 let (ix, vals) = p.verif_store();
                 format!("{} | {}", join(&ix), join_fhx(&vals))
@@ -109,6 +109,8 @@ fn cases<H: std::hash::Hasher + Default>(ctx: &mut Ctx, structured: bool) {
             Ok(sig) => {
                 let (ix, vals) = p.verif_store();
                 ctx.line(&format!("ord set a {}", hashes.join(" ")), &format!("{} | {}", join(&ix), join_fhx(&vals)));
+                // the signature itself: WyHash combination of the selected elements' hashes (model of the combiner in Model/Hashers.lean)
+                ctx.line(&format!("ord sig a {} {}", hx(p.verif_wyhash_seed()), hashes.join(" ")), &join(sig));
                 // oracles on the implementation
                 let sel = selected_pairs(&seq, &ix, m as usize, l);
                 // (a) same instance, same input again: identical signature (self-clearing)
@@ -160,7 +162,7 @@ fn tail(ctx: &mut Ctx) {
     p.verif_set_seed(SEED);
     let r = catch(std::panic::AssertUnwindSafe(|| p.hash_set(&[1u64, 2])));
     ctx.op(&format!("ord new s 4 3 {}", hx(SEED)));
-    ctx.line(&format!("ord set s {} {}", hx(hash_with::<FnvHasher, u64>(&1u64)), hx(hash_with::<FnvHasher, u64>(&2u64))), if r.is_err() { "ERR" } else { "ok" });
+    ctx.line(&format!("ord set s {} {}", fnv_tok(&1u64), fnv_tok(&2u64)), if r.is_err() { "ERR" } else { "ok" });
     // the documented example of finding F6
     ctx.begin_case("ord F6: 1..=10 vs reverse, m=8 l=1");
     ctx.mark_nontrivial();
